@@ -161,6 +161,8 @@ def run(tier, seed, replay=None):
     a = NS(global_sample=k, start=st0, k=k + st0, n=n, d=d, S=S, F=F)
     ck.cover("subdir_file.requires.reachable", [c for _, c in c_layout.requires(a)] + [n == 1000000, d == 3, F == 400, S == 3600, k + st0 > 10 ** 14])
     init_cadence_rule(ck, tu, X)
+    from checks import pyinit
+    pyinit.add_py_cadence_rule(ck)
     from checks import step_common
     step_common.add_step_obligations(ck, tu, X, want=("C04",))
     ck.replayers["digital_rf_get_subdir_file"] = replay_layout
